@@ -139,6 +139,20 @@ func c18RunSignals(h []syscall.Signal) (sig string, d map[string]interface{}, st
 // wait / grace: proxy.shutdownwait and proxy.deregistergraceperiod of the child;
 // hold: how long after the last signal the in-flight request is released
 func c18RunSignalsOpt(h []syscall.Signal, wait, grace string, hold time.Duration) (sig string, d map[string]interface{}, states []string) {
+	// the child picks its ports a moment after the harness found them free: another job may take one in
+	// between. A child that does not come up is started again (up to 3 times) before it counts as an infrastructure error.
+	for attempt := 0; ; attempt++ {
+		sig, d, states = c18RunSignalsOnce(h, wait, grace, hold)
+		if sig != "child-did-not-come-up" {
+			return
+		}
+		if attempt == 2 {
+			panic("VERIF-INFRA: fabio child did not come up in 3 attempts: " + fmt.Sprint(d["startup"]))
+		}
+	}
+}
+
+func c18RunSignalsOnce(h []syscall.Signal, wait, grace string, hold time.Duration) (sig string, d map[string]interface{}, states []string) {
 	var names []string
 	for _, s := range h {
 		names = append(names, c18SigName(s))
@@ -181,50 +195,67 @@ func c18RunSignalsOpt(h []syscall.Signal, wait, grace string, hold time.Duration
 	if err := cmd.Start(); err != nil {
 		panic("VERIF-INFRA: " + err.Error())
 	}
-	lines := make(chan string, 1024)
+	// everything the child logs is kept (a bounded channel that drops when full would lose the very line a
+	// barrier waits for when the start-up output is long); barriers read on from where the last one stopped
+	var lmu sync.Mutex
+	var logged []string
+	logDone := false
 	go func() {
 		sc := bufio.NewScanner(stderr)
-		sc.Buffer(make([]byte, 1<<20), 1<<20)
+		sc.Buffer(make([]byte, 1<<20), 16<<20)
 		for sc.Scan() {
-			select {
-			case lines <- sc.Text():
-			default:
-			}
+			lmu.Lock()
+			logged = append(logged, sc.Text())
+			lmu.Unlock()
 		}
-		close(lines)
+		lmu.Lock()
+		logDone = true
+		lmu.Unlock()
 	}()
 	exited := make(chan error, 1)
 	go func() { exited <- cmd.Wait() }()
 	defer func() {
 		cmd.Process.Kill()
 	}()
+	cursor := 0
 	waitLine := func(sub string) bool {
-		to := time.After(20 * time.Second)
+		deadline := time.Now().Add(60 * time.Second)
 		for {
-			select {
-			case l, ok := <-lines:
-				if !ok {
-					return false
-				}
+			lmu.Lock()
+			for cursor < len(logged) {
+				l := logged[cursor]
+				cursor++
 				if strings.Contains(l, sub) {
+					lmu.Unlock()
 					return true
 				}
-			case <-to:
+			}
+			done := logDone
+			lmu.Unlock()
+			if done || time.Now().After(deadline) {
 				return false
 			}
+			time.Sleep(2 * time.Millisecond)
 		}
 	}
 	listening := false
-	for i := 0; i < 4000 && !listening; i++ {
+	for i := 0; i < 24000 && !listening; i++ { // up to 2 minutes: the machine may be busy with other checks
 		if c, err := net.Dial("tcp", proxyAddr); err == nil {
 			c.Close()
 			listening = true
 		} else {
+			lmu.Lock()
+			gone := logDone
+			lmu.Unlock()
+			if gone {
+				break // the child is gone (could not bind?)
+			}
 			time.Sleep(5 * time.Millisecond)
 		}
 	}
 	if !listening {
-		panic("VERIF-INFRA: fabio child did not start listening")
+		d["startup"] = "not listening"
+		return "child-did-not-come-up", d, states
 	}
 	cl := &http.Client{Transport: &http.Transport{DisableKeepAlives: true}, Timeout: 30 * time.Second}
 	get := func(path string) string {
@@ -241,7 +272,7 @@ func c18RunSignalsOpt(h []syscall.Signal, wait, grace string, hold time.Duration
 	}
 	// the route must be live before the history starts
 	ready := false
-	for i := 0; i < 2000 && !ready; i++ {
+	for i := 0; i < 24000 && !ready; i++ {
 		if get("/ready") == "200 reply for /ready" {
 			ready = true
 		} else {
@@ -249,7 +280,8 @@ func c18RunSignalsOpt(h []syscall.Signal, wait, grace string, hold time.Duration
 		}
 	}
 	if !ready {
-		panic("VERIF-INFRA: fabio child does not route")
+		d["startup"] = "not routing"
+		return "child-did-not-come-up", d, states
 	}
 	inflight := make(chan string, 1)
 	draining := false
